@@ -15,7 +15,11 @@ EXTENDS Supervisor, MC_SupervisorShapes
 CONSTANTS ShapeSel,     \* set of shape indices explored
           MaxFaults,    \* total number of spontaneous failures (err / nil / panic)
           MaxDone,      \* total number of Done signals
-          AllowKill     \* the supervisor's context may be cancelled at any time
+          AllowKill,    \* the supervisor's context may be cancelled at any time
+          FaultKinds    \* failure kinds explored, a subset of SpontaneousKinds.  ProcessDied distinguishes only "nil" (fine
+                        \* for a DONE node), the kinds that look like a cancellation (CANCELED iff the context really is
+                        \* cancelled) and the rest, so {"err", "nil", "canceled"} covers every case of DiedOutcome; "panic" and
+                        \* "deadline" behave as "err", "wrapcanceled" as "canceled"
 
 VARIABLES faults, dones
 
@@ -42,7 +46,7 @@ Svc ==
         \/ pc[n] = "doneret" /\ SvcExit(n, "nil")
 
 Fault ==
-    \E n \in Nodes, k \in {"err", "nil", "panic"} :
+    \E n \in Nodes, k \in FaultKinds :
         /\ faults < MaxFaults /\ pc[n] = "run" /\ SetupDone(n)
         /\ SvcExit(n, k)
 
@@ -91,4 +95,5 @@ DeadRestarts == \A n \in AllNodes : DeadRestartsAt(n)
 
 \* every tree of the family really is an initial state (vacuity guard evaluated by TLC)
 ASSUME ShapeSel \subseteq 1..NumShapes
+ASSUME FaultKinds \subseteq SpontaneousKinds
 =============================================================================
